@@ -26,7 +26,7 @@ fn sugar_for(variant: u64) -> Sugar {
 }
 
 /// plant sugar opportunities into a random term: wrap operands of inheritances in singleton sets
-fn plant(t: &TD, rng: &mut Rng) -> TD {
+pub fn plant(t: &TD, rng: &mut Rng) -> TD {
     let kids: Vec<TD> = t.kids.iter().map(|k| plant(k, rng)).collect();
     let mut c = TD { k: t.k, name: t.name.clone(), num: t.num, kids };
     if c.k == Kind::Inh {
